@@ -1248,6 +1248,41 @@ func runRewindOn(sc *streamScenario, sid string, bs *builtStream, rec *recorder)
 			})
 		}
 	}
+	// (4) a unit of two sections whose second one is damaged (the first is delivered, the unit's error comes with a later call), Rewind in
+	// between: the error belongs to the pass before the Rewind
+	{
+		mkPAT := func(pn, pid int) []byte {
+			return twinSection(&tableModel{K: "pat", TID: 0, SSI: true, CNI: true, Ext: 5, PAT: &astits.PATData{Programs: []*astits.PATProgram{{ProgramNumber: uint16(pn), ProgramMapID: uint16(pid)}}}})
+		}
+		sec2 := mkPAT(2, 0x101)
+		sec2[len(sec2)-1] ^= 0x10
+		unit := append(append([]byte{0}, mkPAT(1, 0x100)...), sec2...)
+		s4 := packetise(0, unit, 3)
+		for u := 0; u < 3; u++ {
+			pes := append([]byte{0, 0, 1, 0xe0, 0, 0, 0x80, 0, 0}, rg.bytes(rg.pick(50, 200, 400))...)
+			s4 = append(s4, packetise(0x200, pes, len(s4)/188)...)
+		}
+		for k := 0; k <= 3; k++ {
+			rec.ev(M{"ev": "variant", "r": -2, "k": -1, "api": "data", "again": -1})
+			drainData(newDemuxer(bytes.NewReader(s4), sc.Run), 30, func() int { return 0 }, func(e M) {
+				e["run"] = -2
+				rec.ev(e)
+			})
+			dmx := newDemuxer(bytes.NewReader(s4), sc.Run)
+			for c := 0; c < k; c++ {
+				safeCall(func() { dmx.NextData() })
+			}
+			rec.ev(M{"ev": "variant", "r": 2000 + k, "k": k, "api": "half-parsed-unit", "again": -1})
+			var n int64
+			var err error
+			pn := safeCall(func() { n, err = dmx.Rewind() })
+			rec.ev(M{"ev": "rewind", "run": 2000 + k, "n": int(n), "err": errClass(err), "panic": pn != nil})
+			drainData(dmx, 30, func() int { return 0 }, func(e M) {
+				e["run"] = 2000 + k
+				rec.ev(e)
+			})
+		}
+	}
 	// a reader that cannot seek (explicit packet size: detection on such a reader loses packets by design): Rewind leaves it where it is
 	// and the demuxer goes on with the rest of the input as a fresh one would - no residue of what was seen before
 	if sc.Run.PSize >= 0 {
